@@ -84,7 +84,7 @@ def run(ctx):
         ("bf", dict(ONE, SliceProtos='{"handshake", "blockfetch"}', Cmds='{"include", "hk", "reqblocks"}',
                     Versions="{13}", MaxDepth="13" if t else "10")),
         ("cs", dict(ONE, SliceProtos='{"handshake", "chainsync"}', Cmds='{"include", "hk", "startsync", "contsync", "demote"}',
-                    MaxDepth="15" if t else "13")),
+                    MaxDepth="15" if t else "14")),
         ("leios", dict(ONE, SliceProtos='{"handshake", "leiosnotify", "leiosfetch"}', Versions="{15}",
                        Cmds='{"include", "hk", "fetcheb", "fetchebtxs"}', MaxDepth="13" if t else "10")),
     ]
